@@ -184,11 +184,11 @@ impl Prop for C31 {
                     for rx in rxs.iter_mut().take(closed) {
                         *rx = None; // receiver dropped
                     }
-                    let (mut sents, mut tos, mut rs) = (vec![], vec![], vec![]);
-                    let mut bad = 0usize;
+                    let (mut sents, mut tos, mut tfs, mut rs) = (vec![], vec![], vec![], vec![]);
+                    let mut bad = 0usize; // requests that are not the HEAD request or go to an unknown peer
+                    let mut dup = 0usize; // a peer asked twice in one round
+                    let mut answers: Vec<String> = vec![];
                     let elig = flags.iter().filter(|f| **f == "ct").count();
-                    let mut answered: Vec<Option<usize>> = vec![];
-                    let mut other = 0usize;
                     for (ri, round) in rounds.iter().enumerate() {
                         let before = rig.sender.sent.len();
                         rig.schedule();
@@ -198,19 +198,30 @@ impl Prop for C31 {
                             }
                         }
                         let new: Vec<(u64, PeerId, HeaderRequest)> = rig.sender.sent[before..].to_vec();
+                        // the real recipients: their indices and their connected/trusted flags as given in the op
                         let mut to: Vec<usize> = vec![];
+                        let mut tf: Vec<&str> = vec![];
                         for (_, p, req) in &new {
                             match ids.iter().position(|x| x == p) {
-                                Some(i) if flags[i] == "ct" && !to.contains(&i) => to.push(i),
-                                _ => bad += 1,
+                                Some(i) => {
+                                    if to.contains(&i) {
+                                        dup += 1;
+                                    }
+                                    to.push(i);
+                                    tf.push(flags[i]);
+                                }
+                                None => bad += 1,
                             }
                             if *req != head {
                                 bad += 1;
                             }
                         }
                         to.sort();
+                        tf.sort();
                         sents.push(new.len().to_string());
+                        // with more than MAX_PEERS eligible peers WHICH ten are asked depends on HashMap order
                         tos.push(if elig > 10 { "*".to_string() } else { natl(&to) });
+                        tfs.push(if tf.is_empty() { "-".to_string() } else { tf.join(".") });
                         // answers: i-th listed answer goes to the i-th request; missing = timeout
                         let mut deliveries: Vec<(usize, &str)> =
                             (0..new.len()).map(|i| (i, round.get(i).copied().unwrap_or("fail"))).collect();
@@ -238,21 +249,25 @@ impl Prop for C31 {
                         }
                         // what did the callers get?
                         let mut r = "none".to_string();
-                        for rx in rxs.iter_mut() {
+                        for (c, rx) in rxs.iter_mut().enumerate() {
                             if let Some(rcv) = rx {
                                 match rcv.try_recv() {
                                     Ok(Ok(v)) if v.len() == 1 => {
                                         let idx = this.pool.iter().position(|h| h.hash() == v[0].hash() && *h == v[0]);
-                                        answered.push(idx);
-                                        if let Some(i) = idx {
-                                            r = i.to_string();
-                                        } else {
-                                            r = "?".into();
+                                        let name = idx.map(|i| i.to_string()).unwrap_or("?".into());
+                                        // every caller's own answer is printed; `r` = what the first of them got
+                                        if r == "none" {
+                                            r = name.clone();
                                         }
+                                        answers.push(format!("{c}:{name}"));
                                         *rx = None;
                                     }
-                                    Ok(_) => {
-                                        other += 1;
+                                    Ok(Ok(v)) => {
+                                        answers.push(format!("{c}:len{}", v.len()));
+                                        *rx = None;
+                                    }
+                                    Ok(Err(_)) => {
+                                        answers.push(format!("{c}:err"));
                                         *rx = None;
                                     }
                                     Err(_) => {}
@@ -261,18 +276,14 @@ impl Prop for C31 {
                         }
                         rs.push(r);
                     }
-                    // all answered callers must have got the same header
-                    let firsts: Vec<usize> = answered.iter().flatten().copied().collect();
-                    if answered.iter().any(|a| a.is_none()) || firsts.windows(2).any(|w| w[0] != w[1]) {
-                        other += 1;
-                    }
                     let live = callers - closed + if rounds.is_empty() { 0 } else { late };
                     format!(
-                        "sent={} to={} bad={bad} r={} got={} of={live} other={other}",
+                        "sent={} to={} tf={} bad={bad} dup={dup} r={} ans={} of={live}",
                         sents.join("/"),
                         tos.join("/"),
+                        tfs.join("/"),
                         rs.join("/"),
-                        answered.len()
+                        if answers.is_empty() { "-".to_string() } else { answers.join(",") }
                     )
                 })
             }
